@@ -7,6 +7,11 @@
 //	         value, payload, balance, pool) through the real
 //	         StateProcessor.ApplyTransaction (staking converter registered)
 //	         against an independent accounting model;
+//	staking: the full product prepared state x staking message x sender x
+//	         funding class x price for validator, delegation and master-signed
+//	         messages (stk_fixture.go, stk_run.go): refused = nothing changes,
+//	         failed = nonce+1 and the gas fee only, successful = the staked
+//	         value leaves the sender and arrives in the pending records;
 //	seq:     every sequence of <= 3 (thorough 4) transactions from a
 //	         10-element alphabet sharing one GasPool and two senders.
 package c17
